@@ -1,6 +1,6 @@
 //go:build verif
 
-package tkn20
+package tkn20_test
 
 // C20, unit counts: policies whose SIZE or DEPTH is the input class. Flat and / or chains of N leaves and of N negated
 // leaves (nesting depth 1, N operators) for N around the byte, the 1000 and the 4096 marks must parse, decide like the
@@ -11,6 +11,7 @@ package tkn20
 
 import (
 	"fmt"
+	"github.com/cloudflare/circl/abe/cpabe/tkn20"
 	"strings"
 	"testing"
 
@@ -130,7 +131,7 @@ func c20CheckChain(r *verifmc.Run, c *c20Chain) {
 		viol("Policy.FromString", "refuses-flat-chain", fmt.Sprintf("%s (nesting depth %d, in the language): FromString: %v %s", c.name(), map[bool]int{false: 0, true: 1}[c.neg], err, pn))
 		return
 	}
-	check := func(q *Policy, via string) {
+	check := func(q *tkn20.Policy, via string) {
 		for _, a := range asgs {
 			want := abe.EvalNNF(nn, a.m)
 			var got bool
